@@ -91,12 +91,13 @@ Example C08_insert_many_satisfiable :
 Proof. vm_compute. repeat split; reflexivity. Qed.
 
 (* A rolled-back write marks the collection as existing (with_docs_w sets [forced], the rollback
-   keeps it).  At the failing step nothing is visible - a unique check can only fail when an
-   index exists, and then index_information lists _id_ anyway - so c08_ok holds inside the
-   guard (this is how C08_history survives the change, see same_vis in Proofs/C08Fail.v).  The
-   mark shows later: after drop_indexes the never-written collection still lists _id_, whereas
-   without the failed insert_one it lists nothing.  Not a violation of the predicate (which
-   compares the observations around the failing step only), but a trace of the failed write. *)
+   keeps it).  Since create_index itself marks the collection as created (with_idx_w, the repaired
+   CollectionStore.create_index), that mark is no longer observable: a unique check can only fail
+   when an index exists, i.e. after a create_index, and then the collection is created already.
+   (Before that repair this history showed a trace of the failed write: after drop_indexes the
+   never-written collection listed _id_ with the failed insert_one and nothing without it.)
+   Now the history with the failed insert_one and the one without it end in the same state and
+   both list _id_ after drop_indexes. *)
 Definition ops_mark : list op :=
   [ OCreateIndex [("u", VInt 1)] true false None (Some (VDoc [("$bad", VInt 1)])) None;
     OInsertOne (VDoc [("_id", VInt 1); ("u", VInt 1)]);      (* the unique check raises *)
@@ -105,15 +106,17 @@ Definition ops_nomark : list op :=
   [ OCreateIndex [("u", VInt 1)] true false None (Some (VDoc [("$bad", VInt 1)])) None;
     ODropIndexes ].
 
-Example C08_rolled_back_write_marks_created :
+Example C08_rolled_back_write_leaves_no_trace :
   let os := model_obs false empty_coll ops_mark in
   c08_reasons ops_mark os = 0 /\ modelled false empty_coll ops_mark = true /\
   c08_ok ops_mark os = true /\
   map (fun ob : obs => is_ok (fst (fst ob))) os = [true; false; true] /\
   map (fun ob : obs => snd (fst ob)) os = [[]; []; []] /\
-  forced (final false empty_coll (firstn 1 ops_mark)) = false /\
+  forced (final false empty_coll (firstn 1 ops_mark)) = true /\
   forced (final false empty_coll (firstn 2 ops_mark)) = true /\
   snd (last os (Ok VNull, [], VNull)) =
     VDoc [("_id_", VDoc [("key", VArr [VArr [VStr "_id"; VInt 1]]); ("v", VInt 2)])] /\
-  snd (last (model_obs false empty_coll ops_nomark) (Ok VNull, [], VNull)) = VDoc [].
+  snd (last (model_obs false empty_coll ops_nomark) (Ok VNull, [], VNull)) =
+    VDoc [("_id_", VDoc [("key", VArr [VArr [VStr "_id"; VInt 1]]); ("v", VInt 2)])] /\
+  final false empty_coll ops_mark = final false empty_coll ops_nomark.
 Proof. vm_compute. repeat split; reflexivity. Qed.
